@@ -52,6 +52,11 @@ def build(M, sigset, ks, text_spine, split_m, nested, kinds, final, change_m=0, 
         return ('4', '8', '2', '16', '8.', '4.')[(i // 14) % 6] + p
     live_extra = 0           # extra sub-spine columns of spine 0
     pending_join = False
+
+    def below_operator(width_extra):
+        # a local-comment row (one comment cell per live column) directly below a split / join row
+        if gcomments & 4:
+            rows.append(['!lc%d' % (len(rows) * 10 + j) for j in range(ks + width_extra + (1 if text_spine else 0))])
     for m in range(1, M + 1):
         if change_m == m:
             rows.append(['*clefC1'] + ['*'] * (ks - 1 + live_extra) + (['*'] if text_spine else []))
@@ -66,24 +71,29 @@ def build(M, sigset, ks, text_spine, split_m, nested, kinds, final, change_m=0, 
             rows.append(data())
             rows.append(['*v', '*v'] + ['*'] * (ks - 1) + (['*'] if text_spine else []))
             live_extra = 0
+            below_operator(0)
             pending_join = False
         rows.append(data())
         if split_m == m:
             rows.append(['*^'] + ['*'] * (ks - 1) + (['*'] if text_spine else []))
             live_extra = 1
+            below_operator(1)
             rows.append(data())
             if nested:
                 rows.append(['*^', '*'] + ['*'] * (ks - 1) + (['*'] if text_spine else []))
                 live_extra = 2
+                below_operator(2)
                 rows.append(data())
                 rows.append(['*v', '*v', '*'] + ['*'] * (ks - 1) + (['*'] if text_spine else []))
                 live_extra = 1
+                below_operator(1)
                 rows.append(data())
             if open_split:
                 pending_join = True
             else:
                 rows.append(['*v', '*v'] + ['*'] * (ks - 1) + (['*'] if text_spine else []))
                 live_extra = 0
+                below_operator(0)
                 if tight_join:
                     continue           # the join row stands directly in front of the next barline
         rows.append(data())
@@ -168,6 +178,12 @@ def _shapes(tier, tracked=False):
                 for final in (0, 1):
                     for gc in (1, 3):
                         out.append((M, (M + ks) % len(SIGSETS), ks, ts, split_m, 0, ('notes',), final, 0, False, gc))
+    # local-comment rows directly below every split / join row (the comment cells sit between the operator and the sub-spines)
+    for M in (2, 3):
+        for ks, ts in ((1, 0), (2, 0), (1, 1)):
+            for split_m, nested in ((1, 0), (2, 0), (1, 1)):
+                for final in (0, 1):
+                    out.append((M, (M + ks) % len(SIGSETS), ks, ts, split_m, nested, ('notes',), final, 0, False, 4))
     return out
 
 
